@@ -90,16 +90,15 @@ def inFlight (ivs : List (Num × Num)) (t : Num) : Nat :=
 
 abbrev QS := List (Int × List BP)
 
-def getQ (st : QS) (pid : Int) : List BP :=
-  match st.find? (fun kv => kv.1 == pid) with
-  | some kv => kv.2
-  | none => []
+/-- `self.queues[pid]` (after `if qid not in self.queues: self.queues[qid] = []`) -/
+def getQ : QS → Int → List BP
+  | [], _ => []
+  | kv :: rest, pid => if kv.1 == pid then kv.2 else getQ rest pid
 
 /-- `self.queues[pid] = q` : replace in place, or append a new key at the end -/
-def setQ (st : QS) (pid : Int) (q : List BP) : QS :=
-  if st.any (fun kv => kv.1 == pid) then
-    st.map (fun kv => if kv.1 == pid then (pid, q) else kv)
-  else st ++ [(pid, q)]
+def setQ : QS → Int → List BP → QS
+  | [], pid, q => [(pid, q)]
+  | kv :: rest, pid, q => if kv.1 == pid then (pid, q) :: rest else kv :: setQ rest pid q
 
 def createCounter (st : QS) (pid : Int) (s e : Num) : QS × List BP :=
   let r := updateQueues (getQ st pid) s e
